@@ -487,8 +487,9 @@ static bool false_child_only_where_unfeasible(const PPL::PIP_Tree_Node* root, co
   return false;
 }
 
-// Last-resort necessary condition of the same defect: the "SWAP BRANCHES" exit can only damage a node when the solver
-// split at least twice on one path, i.e. the tree has two nodes with conditions on one root-to-leaf path.
+// Last-resort necessary condition of the same defect: the "SWAP BRANCHES" exit only exists once the solver has split,
+// and it always leaves its own test (the complement of the unfeasible branch's) in the tree: the tree has at least one
+// node with a condition.  (The lost condition itself is, by nature of the defect, no longer there to be seen.)
 static int max_conditions_on_path(const PPL::PIP_Tree_Node* n) {
   if (n == 0) return 0;
   int here = n->constraints().begin() != n->constraints().end() ? 1 : 0;
@@ -597,7 +598,7 @@ static bool judge(const PIP& p, int status, const Data& d, const Reporter& rp, c
       if (trig[b0] == "none" && big_with_non_unit_coefficient(d)) trig[b0] = "big_parameter_in_row_with_non_unit_variable_coefficient";
       if (status == 1 && trig[b0] == "none" && clause[b0].compare(0, 5, "tree:") == 0 && tree_has_dead_condition(root, d)) trig[b0] = "tree_node_condition_never_true_when_reached";
       if (status == 1 && trig[b0] == "none" && clause[b0].compare(0, 5, "tree:") == 0) { RefGuard g; if (false_child_only_where_unfeasible(root, d)) trig[b0] = "false_child_entered_only_where_unfeasible"; }
-      if (status == 1 && trig[b0] == "none" && clause[b0].compare(0, 5, "tree:") == 0 && clause[b0] != "tree:malformed" && max_conditions_on_path(root) >= 2) trig[b0] = "tree_with_nested_conditions";
+      if (status == 1 && trig[b0] == "none" && clause[b0].compare(0, 5, "tree:") == 0 && clause[b0] != "tree:malformed" && max_conditions_on_path(root) >= 1) trig[b0] = "tree_with_conditions";
       rp.viol(site, clause[b0], trig[b0], obs[b0], exp[b0], dt);
       ok = false;
       break;          // one finding per judged problem: the first valuation that fails
